@@ -69,6 +69,27 @@ def Ent.run (P : Policy σ) (qcap : Nat) : Ent σ → List Act → Ent σ
 
 def Ent.init (s : σ) : Ent σ := ⟨s, [], none, [], [], []⟩
 
+/-! ## the `Inductor` (`rate_limiter/inductor.py`)
+
+Its `_handle_arrival` / `_handle_poll` / `_ensure_poll_scheduled` have the control flow of
+`RateLimitedEntity` (with the arrival path *as repaired by*
+`fixes/C10-inductor-arrival-overtakes-queue.diff`: the oldest queued event goes first), with the EWMA
+gate `_can_forward` + `_forward` in the place of `try_acquire` and the smoothed interval (≥ 1 ns) in the
+place of `time_until_available`.  The gate computes in floats through `math.exp`; the model takes its
+answers in call order from an oracle — `ds` the gate's decisions, `ws` the poll waits — so the Inductor
+is `Ent` over `orcPolicy`, and every theorem about `Ent` over an arbitrary policy is a theorem about it. -/
+
+structure Orc where
+  ds : List Bool
+  ws : List Nat
+deriving Repr
+
+/-- `wait = Duration.from_seconds(smoothed_interval); if wait == Duration.ZERO: wait = Duration(1)`:
+    the oracle supplies the truncated interval, the 1 ns guard is the model's -/
+def orcPolicy : Policy Orc :=
+  ⟨fun s _ => (⟨s.ds.tail, s.ws⟩, s.ds.headD false),
+   fun s _ => (⟨s.ds, s.ws.tail⟩, if s.ws.headD 1 = 0 then 1 else s.ws.headD 1)⟩
+
 /-- ids of the requests in an action list, in delivery order -/
 def reqIds : List Act → List Nat
   | [] => []
